@@ -1,8 +1,343 @@
 package main
 
-import "verifharness/vlib"
+import (
+	"bytes"
+	"context"
+	"fmt"
 
-// Layer 2 is added once the in-memory Postgres substrate is in place.
-func layer2Cases(env *vlib.Env) int                         { return 0 }
-func layer2Case(env *vlib.Env, idx int, rep *vlib.Reporter) {}
-func layer2Finalize(env *vlib.Env, agg *vlib.Aggregate)     {}
+	pubsub "github.com/libp2p/go-libp2p-pubsub"
+
+	"github.com/shutter-network/shutter/shlib/shcrypto"
+
+	"github.com/shutter-network/rolling-shutter/rolling-shutter/keyper/database"
+	"github.com/shutter-network/rolling-shutter/rolling-shutter/p2pmsg"
+
+	"verifharness/fixtures"
+	"verifharness/gossipnet"
+	"verifharness/pgmem"
+	"verifharness/vlib"
+)
+
+// Layer 2: the same alphabet as gossip messages through the real validator + handler of a core
+// keyper (p2p.P2PMessaging dispatch, epochkghandler.DecryptionKeyShareHandler, the key share
+// handler for the node's own trigger) over the in-memory Postgres, with rows the validator never
+// saw placed into decryption_key_share ("poisoned table": what an earlier software version, a
+// restored backup or a manual repair could leave behind), and with all scan orders SQL leaves open.
+
+type l2step struct {
+	kind    byte // 'V','W','X' message of sender; 'P' poison row for sender; 'T' own trigger; 'R' repeat of an earlier message step
+	sender  int
+	ids     int // 1: identity I only, 2: I and J
+	ref     int // for R
+	poisonK byte
+}
+
+func (s l2step) String() string {
+	switch s.kind {
+	case 'T':
+		return "T"
+	case 'R':
+		return fmt.Sprintf("R%d", s.ref)
+	case 'P':
+		return fmt.Sprintf("P%d%c", s.sender, s.poisonK)
+	}
+	return fmt.Sprintf("%c%d/%d", s.kind, s.sender, s.ids)
+}
+
+func layer2Cases(env *vlib.Env) int { return env.Scale(400, 8000) }
+
+func layer2Finalize(env *vlib.Env, agg *vlib.Aggregate) {
+	agg.Require("l2_deliveries", 1000)
+	agg.Require("l2_keys_derived", 100)
+	agg.Require("l2_invalid_rejected", 200)
+	agg.Require("l2_poison_rows", 100)
+	agg.Require("l2_keys_derived_with_poison_present", 10)
+}
+
+func layer2Case(env *vlib.Env, idx int, rep *vlib.Reporter) {
+	ctx := context.Background()
+	rng := vlib.NewRng(env.Seed, 12, uint64(idx))
+	n := 1 + rng.Intn(4)
+	if rng.Chance(1, 4) {
+		n = 3
+	}
+	t := 1 + rng.Intn(n)
+	self := rng.Intn(n)
+	w := gossipnet.NewWorld(env.Seed+uint64(idx%7), n, t)
+	other := fixtures.NewEonKeys(env.Seed+5000+uint64(idx%7), n, t)
+	node, err := gossipnet.NewNode(ctx, w, gossipnet.Core, self, gossipnet.StateMemberSuccess)
+	if err != nil {
+		rep.Inconclusive("setup: " + err.Error())
+		return
+	}
+	defer node.Close()
+	scan := []pgmem.ScanOrder{pgmem.ScanInsertion, pgmem.ScanReverse, pgmem.ScanShuffle}[rng.Intn(3)]
+	node.DBNode.DB.SetScanOrder(scan, rng.Uint64())
+
+	// the plan
+	var steps []l2step
+	length := 2 + rng.Intn(env.Scale(7, 10))
+	var msgSteps []int
+	triggered := false
+	for i := 0; i < length; i++ {
+		r := rng.Intn(100)
+		s := l2step{sender: rng.Intn(n), ids: 1 + rng.Intn(2)}
+		if i == 0 && rng.Chance(2, 5) {
+			r = 70 // start from a poisoned table
+		}
+		switch {
+		case r < 45:
+			s.kind = 'V'
+		case r < 55:
+			s.kind = 'W'
+		case r < 65:
+			s.kind = 'X'
+		case r < 80:
+			s.kind = 'P'
+			s.poisonK = "WXGE"[rng.Intn(4)]
+		case r < 88 && !triggered:
+			s.kind = 'T'
+			triggered = true
+		case len(msgSteps) > 0:
+			s.kind = 'R'
+			s.ref = msgSteps[rng.Intn(len(msgSteps))]
+		default:
+			s.kind = 'V'
+		}
+		if s.kind == 'V' || s.kind == 'W' || s.kind == 'X' {
+			if s.sender == self {
+				// a node never receives its own gossip message; its own share enters by the trigger
+				s.sender = (self + 1) % n
+				if n == 1 {
+					s.kind = 'T'
+					if triggered {
+						continue
+					}
+					triggered = true
+				}
+			}
+			if s.kind != 'T' {
+				msgSteps = append(msgSteps, len(steps))
+			}
+		}
+		steps = append(steps, s)
+	}
+	desc := fmt.Sprintf("n=%d t=%d self=%d scan=%d %v", n, t, self, scan, steps)
+	ids := [][]byte{idI, idJ}
+	if bytes.Compare(idI, idJ) > 0 {
+		ids = [][]byte{idJ, idI}
+	}
+	wantKey := map[string][]byte{string(idI): w.Eon.EpochKey(idI).Marshal(), string(idJ): w.Eon.EpochKey(idJ).Marshal()}
+	eon := w.CfgIndex
+	build := func(s l2step) []byte {
+		list := [][]byte{idI}
+		if s.ids == 2 {
+			list = ids
+		}
+		m := &p2pmsg.DecryptionKeyShares{InstanceId: w.InstanceID, Eon: uint64(eon), KeyperIndex: uint64(s.sender)}
+		for _, id := range list {
+			var sh *shcrypto.EpochSecretKeyShare
+			switch s.kind {
+			case 'V':
+				sh = w.Eon.Share(s.sender, id)
+			case 'W': // the sender's share for the other identity
+				o := idJ
+				if bytes.Equal(id, idJ) {
+					o = idI
+				}
+				sh = w.Eon.Share(s.sender, o)
+			case 'X':
+				sh = other.Share(s.sender, id)
+			}
+			m.Shares = append(m.Shares, &p2pmsg.KeyShare{IdentityPreimage: id, Share: sh.Marshal()})
+		}
+		return gossipnet.MustMarshal(m)
+	}
+	topic := (&p2pmsg.DecryptionKeyShares{}).Topic()
+	raw := map[int][]byte{}
+	kinds := map[int]l2step{}
+	poisonPresent := false
+	q := database.New(node.Pool)
+
+	// validRows recomputes from the table what the node holds: distinct keypers with a valid share
+	validRows := func(id []byte) (valid int, invalid int) {
+		for _, row := range node.DBNode.DB.Snapshot().Rows("decryption_key_share") {
+			if row["eon"].(int64) != eon || !bytes.Equal(row["epoch_id"].([]byte), id) {
+				continue
+			}
+			k := int(row["keyper_index"].(int64))
+			b, _ := row["decryption_key_share"].([]byte)
+			if k >= 0 && k < n && bytes.Equal(b, w.Eon.Share(k, id).Marshal()) {
+				valid++
+			} else {
+				invalid++
+			}
+		}
+		return
+	}
+	checkKeys := func(after string) bool {
+		for _, row := range node.DBNode.DB.Snapshot().Rows("decryption_key") {
+			id := row["epoch_id"].([]byte)
+			got, _ := row["decryption_key"].([]byte)
+			want, known := wantKey[string(id)]
+			v, _ := validRows(id)
+			d := map[string]any{"plan": desc, "after": after, "identity": string(id)}
+			if !known || !bytes.Equal(got, want) {
+				rep.Violationf("l2:wrong-key-stored", d, "after %s the stored key for %q is not H1(id)^s", after, id)
+				return false
+			}
+			if v < t {
+				rep.Violationf("l2:key-from-too-few", d, "after %s a key is stored for %q although only %d valid shares are held (threshold %d)", after, id, v, t)
+				return false
+			}
+		}
+		return true
+	}
+	keyStored := func(id []byte) bool {
+		ok, err := q.ExistsDecryptionKey(ctx, database.ExistsDecryptionKeyParams{Eon: eon, EpochID: id})
+		return err == nil && ok
+	}
+	derivedCounted := map[string]bool{}
+
+	for i, s := range steps {
+		label := fmt.Sprintf("step %d (%s)", i, s)
+		switch s.kind {
+		case 'P':
+			var b []byte
+			switch s.poisonK {
+			case 'W':
+				b = w.Eon.Share(s.sender, idJ).Marshal()
+			case 'X':
+				b = other.Share(s.sender, idI).Marshal()
+			case 'G':
+				b = rng.Bytes(17) // undecodable
+			case 'E':
+				b = []byte{}
+			}
+			// only if no row is there yet (primary key)
+			if err := q.InsertDecryptionKeyShare(ctx, database.InsertDecryptionKeyShareParams{Eon: eon, EpochID: idI, KeyperIndex: int64(s.sender), DecryptionKeyShare: b}); err != nil {
+				rep.Inconclusive("poison insert: " + err.Error())
+				return
+			}
+			_, inv := validRows(idI)
+			if inv > 0 {
+				poisonPresent = true
+				rep.Obs("l2_poison_rows", 1)
+			}
+			continue
+		case 'T':
+			var sent []gossipnet.Sent
+			var terr error
+			if rep.Guard("l2:panic", desc, func() { sent, terr = node.TriggerCore(ctx, 1000, [][]byte{idI}) }) {
+				return
+			}
+			rep.Obs("l2_triggers", 1)
+			_ = sent
+			if terr != nil {
+				// the trigger handler may legitimately refuse (e.g. the share row exists already)
+				rep.Obs("l2_trigger_errors", 1)
+				rep.ObsDistinct("l2_trigger_error_kinds", fmt.Sprintf("%.60s", terr.Error()))
+				if idx%50 < 25 {
+					rep.Sample(map[string]any{"layer": 2, "trigger_error": terr.Error(), "plan": desc})
+				}
+			}
+			if !checkKeys(label) {
+				return
+			}
+			continue
+		}
+		var data []byte
+		eff := s
+		if s.kind == 'R' {
+			data = raw[s.ref]
+			eff = kinds[s.ref]
+		} else {
+			data = build(s)
+			raw[i] = data
+			kinds[i] = s
+		}
+		var d gossipnet.Delivery
+		if rep.Guard("l2:panic", desc, func() { d = node.Deliver(ctx, topic, data) }) {
+			return
+		}
+		rep.Obs("l2_deliveries", 1)
+		det := map[string]any{"plan": desc, "step": label}
+		if eff.kind == 'V' {
+			if d.Result != pubsub.ValidationAccept {
+				rep.Violationf("l2:valid-message-rejected", det, "%s: a valid shares message was rejected by the validator", label)
+				return
+			}
+			if d.HandleErr != nil {
+				// "failed to generate decryption key ... even though we have enough shares" is how a
+				// poisoned table shows up; with >= t valid rows that is a blocked result
+				v, _ := validRows(idI)
+				if v >= t {
+					det["error"] = d.HandleErr.Error()
+					rep.Violationf("l2:handler-error-with-threshold-held", det, "%s: handler failed although %d valid shares are held: %v", label, v, d.HandleErr)
+					return
+				}
+				rep.Obs("l2_handler_errors_below_threshold", 1)
+			}
+		} else {
+			if d.Result == pubsub.ValidationAccept {
+				rep.Violationf("l2:invalid-message-accepted:"+string(eff.kind), det, "%s: a shares message with invalid shares passed the validator", label)
+				return
+			}
+			rep.Obs("l2_invalid_rejected", 1)
+		}
+		if !checkKeys(label) {
+			return
+		}
+		// exactly-when: after an accepted delivery, every identity of the message with >= t valid
+		// rows must have its key — provided all identities of the message reached the threshold
+		// (the handler derives all or nothing per message)
+		if eff.kind == 'V' && d.HandleErr == nil {
+			list := [][]byte{idI}
+			if eff.ids == 2 {
+				list = ids
+			}
+			all := true
+			for _, id := range list {
+				if v, _ := validRows(id); v < t {
+					all = false
+				}
+			}
+			if all {
+				for _, id := range list {
+					if !keyStored(id) {
+						v, inv := validRows(id)
+						det["valid_rows"], det["invalid_rows"] = v, inv
+						rep.Violationf("l2:key-missing", det, "%s: %d valid shares held for %q (threshold %d, %d invalid rows present) but no key stored", label, v, id, t, inv)
+						return
+					}
+					if !derivedCounted[string(id)] {
+						derivedCounted[string(id)] = true
+						rep.Obs("l2_keys_derived", 1)
+						if poisonPresent && bytes.Equal(id, idI) {
+							rep.Obs("l2_keys_derived_with_poison_present", 1)
+						}
+					}
+				}
+				// the announced keys message carries the correct keys
+				for _, o := range d.Out {
+					if km, ok := o.Msg.(*p2pmsg.DecryptionKeys); ok {
+						for _, k := range km.Keys {
+							if !bytes.Equal(k.Key, wantKey[string(k.IdentityPreimage)]) {
+								rep.Violationf("l2:wrong-key-announced", det, "%s: the keys message carries a wrong key", label)
+								return
+							}
+						}
+						rep.Obs("l2_keys_messages_checked", 1)
+					}
+				}
+			}
+		}
+	}
+	rep.Eval("l2 "+desc, true)
+	if u := node.DBNode.CheckUnsupported(); u != "" {
+		rep.Inconclusive("substrate: " + u)
+	}
+	if idx%100 == 0 {
+		rep.Sample(map[string]any{"layer": 2, "plan": desc})
+	}
+}
